@@ -1,0 +1,60 @@
+// Copyright 2024 The Go Authors. All rights reserved.
+// Use of this source code is governed by a BSD-style
+// license that can be found in the LICENSE file.
+
+//go:build verif
+
+// Contracts (//@ lines) for the upload-config generator; compiled only with -tags verif.
+
+package main
+
+// C17 ghosts:
+//
+//	$nreal    the number of real versions given to padVersions
+//	$sorted   the slice handed to the final semver.Sort of padVersions
+
+//@ ghost nreal int
+
+// minVersion: the empty string is an absolute minimum; otherwise one of the two
+// arguments, and never greater than either (by semver.Compare).
+//@ contract minVersion
+//@   ensures v1 == "" || v2 == "" ==> result == ""
+//@   ensures v1 != "" && v2 != "" ==> (result == v1 || result == v2)
+//@   ensures v1 != "" && v2 != "" && result == v1 ==> semver.Compare(v1, v2) <= 0
+//@   ensures v1 != "" && v2 != "" && result == v2 && result != v1 ==> semver.Compare(v1, v2) > 0
+//@   modifies nothing
+
+// generate: each record's counter expression goes under its own program, as a
+// stack exactly when it has a positive depth and as a counter otherwise, with
+// the record's depth; a known version is listed only if it is not older than
+// the program's minimum version.
+//@ contract generate
+//@   at call append#1: assert gcfg.Depth > 0 && arg1[0].Name == gcfg.Counter && arg1[0].Depth == gcfg.Depth && pcfg != nil && pcfg.Name == gcfg.Program && in(gcfg.Program, programs) && programs[gcfg.Program] == pcfg
+//@   at call append#2: assert gcfg.Depth <= 0 && arg1[0].Name == gcfg.Counter && pcfg != nil && pcfg.Name == gcfg.Program && in(gcfg.Program, programs) && programs[gcfg.Program] == pcfg
+//@   at call append#3: assert minVersion == "" || version.Compare(minVersion, arg1[0]) <= 0
+//@   loop 2: invariant forall k string :: in(k, programs) ==> programs[k] != nil && programs[k].Name == k && allocated(programs[k])
+//@   loop 3: invariant ucfg != nil
+//@   loop 4: invariant ucfg != nil && p != nil
+//@   loop 5: invariant ucfg != nil && p != nil && 0 <= i && i <= rangeindex+1 && i <= len(versions)
+//@   modifies heap, $nreal
+
+//@ contract prereleasesForProgram
+//@   modifies nothing
+
+// padVersions: the real versions stay in the list (only appends follow the
+// copy), and the list returned is the one handed to the final semver.Sort.
+//@ contract padVersions
+//@   at call Clone#1: after ghost $nreal = len(result)
+//@   loop 1: invariant len(versions) == $nreal && all != nil
+//@   loop 2: invariant len(versions) >= $nreal && all != nil
+//@   loop 3: invariant len(versions) >= $nreal && all != nil
+//@   loop 4: invariant len(versions) >= $nreal && all != nil
+//@   loop 5: invariant len(versions) >= $nreal && all != nil
+//@   loop 6: invariant len(versions) >= $nreal && all != nil && 0 <= nextPrerelease
+//@   loop 7: invariant len(versions) >= $nreal && all != nil && 0 <= i
+//@   at call Sort#2: assert len(arg0) >= $nreal && issub(arg0, versions, 0, len(versions))
+//@   allows panic#1: documented "can't happen": the latest release is a canonical semantic version
+//@   modifies heap, $nreal
+
+//@ contract parseSemver
+//@   modifies nothing
